@@ -551,6 +551,16 @@ impl<T: Valid> Valid for Vec<T> {
     }
 }
 
+/// Upper bound (in bytes) on the memory reserved up front on behalf of a length prefix read
+/// from untrusted input; longer sequences grow as their elements are actually read.
+const MAX_PREALLOCATION_BYTES: usize = 1 << 16;
+
+/// Capacity to reserve for a sequence whose (untrusted) length prefix is `len`.
+#[inline]
+fn bounded_capacity<T>(len: usize) -> usize {
+    len.min(MAX_PREALLOCATION_BYTES / core::mem::size_of::<T>().max(1))
+}
+
 impl<T: CanonicalDeserialize> CanonicalDeserialize for Vec<T> {
     #[inline]
     fn deserialize_with_mode<R: Read>(
@@ -561,7 +571,7 @@ impl<T: CanonicalDeserialize> CanonicalDeserialize for Vec<T> {
         let len = u64::deserialize_with_mode(&mut reader, compress, validate)?
             .try_into()
             .map_err(|_| SerializationError::NotEnoughSpace)?;
-        let mut values = Self::with_capacity(len);
+        let mut values = Self::with_capacity(bounded_capacity::<T>(len));
         for _ in 0..len {
             values.push(T::deserialize_with_mode(
                 &mut reader,
@@ -658,7 +668,7 @@ impl<T: CanonicalDeserialize> CanonicalDeserialize for VecDeque<T> {
         let len = u64::deserialize_with_mode(&mut reader, compress, validate)?
             .try_into()
             .map_err(|_| SerializationError::NotEnoughSpace)?;
-        let mut values = Self::with_capacity(len);
+        let mut values = Self::with_capacity(bounded_capacity::<T>(len));
         for _ in 0..len {
             values.push_back(T::deserialize_with_mode(
                 &mut reader,
